@@ -286,6 +286,11 @@ def run(ctx: Ctx, tier: str) -> Result:
     for fi, c in stub_calls:
         kw = {k.arg: k.value for k in c.keywords}
         m_ = kw.get("metadata")
+        if isinstance(m_, ast.Name):
+            # metadata = self.grpc.metadata() ... stub.poll(request, metadata=metadata)
+            bs_ = [b for k_, b in t.local_bindings(fi, m_.id)]
+            if len(bs_) == 1 and isinstance(bs_[0], tuple) and bs_[0][2] is None and bs_[0][1] is not None:
+                m_ = bs_[0][1]
         ok = isinstance(m_, ast.Call) and md in t.resolve_call(m_, fi).repo
         if ok:
             res.ok("C08.AUTH", {"request": norm(c.func), "metadata": norm(m_), "at": fi.loc(c)})
